@@ -33,11 +33,50 @@ Proof.
   destruct (n_eolterm nd); [discriminate|]. auto.
 Qed.
 
-(* state invariant of main-mode parsing: not inside comment parsing; comment_positions entries are
-   never overwritten with a different value (skipws: written only when absent; no skipws: only
-   allowed without a comment model, where every entry is k |-> k) *)
+(* the Comment rule is a single terminal: tried in comment mode it is a function of the state that
+   does not involve the recursive parser (and is never memoized) *)
+Definition cjump (s1 : st) : st :=
+  match (if skipws s1 then lookup (pos s1) (cpos s1) else None) with
+  | Some p' => set_pos p' s1
+  | None => s1
+  end.
+Definition cterm (cm : nat) (s : st) : out :=
+  match get_node g cm with
+  | None => Abort 1
+  | Some nd =>
+    match term_parse input orc cm (n_kind nd) false (cjump (maybe_skip_ws input s)) with
+    | Ok r s3 => Ok (if n_suppress nd then RNone else r) s3
+    | o => o
+    end
+  end.
+Fixpoint cloop (cm k : nat) (s : st) : out :=
+  match k with
+  | 0 => Abort 0
+  | S k' =>
+    match cterm cm s with
+    | Ok _ s1 => cloop cm k' (maybe_skip_ws input s1)
+    | Fail s1 => Ok RNone s1
+    | Abort w => Abort w
+    end
+  end.
+
+
+(* [v] is the position at which the comment loop started at [k] ends (whitespace skipping off), whatever
+   the fuel and the rest of the state *)
+Definition CV (cm k v : nat) : Prop :=
+  forall f s r s2, in_cmt s = true -> skipws s = false -> pos s = k -> cloop cm f s = Ok r s2 -> pos s2 = v.
+
+(* state invariant of main-mode parsing: not inside comment parsing, and comment_positions entries are
+   never overwritten with a different value: with skipws they are written only when absent; without
+   skipws every entry is what re-computation gives (k |-> k without a comment model, the end of the
+   comment loop started at k otherwise) *)
+Definition cpos_ok (c : list (nat * nat)) : Prop :=
+  match g_comments g with
+  | None => cpos_id c
+  | Some cm => forall k v, lookup k c = Some v -> CV cm k v
+  end.
 Definition sinv (s : st) : Prop :=
-  in_cmt s = false /\ (skipws s = true \/ (g_comments g = None /\ cpos_id (cpos s))).
+  in_cmt s = false /\ (skipws s = true \/ cpos_ok (cpos s)).
 
 Lemma skipws_reg_fail p s : skipws (reg_fail p s) = skipws s.
 Proof. unfold reg_fail. destruct (nm s); [destruct (in_cmt s); [|destruct (Nat.ltb _ _)]|]; reflexivity. Qed.
@@ -129,33 +168,6 @@ Lemma msw_cache c s : maybe_skip_ws input (set_cache c s) = set_cache c (maybe_s
 Proof. unfold maybe_skip_ws, do_skip_ws. cbn. destruct (skipws s); reflexivity. Qed.
 Lemma set_cpos_same s : set_cpos (cpos s) s = s.
 Proof. destruct s; reflexivity. Qed.
-
-(* the Comment rule is a single terminal: tried in comment mode it is a function of the state that
-   does not involve the recursive parser (and is never memoized) *)
-Definition cjump (s1 : st) : st :=
-  match (if skipws s1 then lookup (pos s1) (cpos s1) else None) with
-  | Some p' => set_pos p' s1
-  | None => s1
-  end.
-Definition cterm (cm : nat) (s : st) : out :=
-  match get_node g cm with
-  | None => Abort 1
-  | Some nd =>
-    match term_parse input orc cm (n_kind nd) false (cjump (maybe_skip_ws input s)) with
-    | Ok r s3 => Ok (if n_suppress nd then RNone else r) s3
-    | o => o
-    end
-  end.
-Fixpoint cloop (cm k : nat) (s : st) : out :=
-  match k with
-  | 0 => Abort 0
-  | S k' =>
-    match cterm cm s with
-    | Ok _ s1 => cloop cm k' (maybe_skip_ws input s1)
-    | Fail s1 => Ok RNone s1
-    | Abort w => Abort w
-    end
-  end.
 
 Definition cgood (s : st) (o : out) : Prop :=
   match o with Ok _ s1 | Fail s1 => dom s s1 /\ cpos s1 = cpos s | Abort _ => True end.
@@ -249,6 +261,125 @@ Proof.
   intros L k2 v2 L2. destruct (Nat.eq_dec k2 k) as [->|Hne]; [congruence|]. now rewrite lookup_upd_other.
 Qed.
 
+Definition rerun_ok (o : out) (s' : st) (o' : out) : Prop :=
+  is_abort o' = true \/ o' = omap (fun s1 => set_pos (pos s1) s') o.
+
+(* ---- the comment loop without whitespace skipping: a function of the position *)
+Lemma msw_nosk s : skipws s = false -> maybe_skip_ws input s = s.
+Proof. intro SK. unfold maybe_skip_ws. now rewrite SK. Qed.
+Lemma cjump_nosk s : skipws s = false -> cjump s = s.
+Proof. intro SK. unfold cjump. now rewrite SK. Qed.
+
+Definition same_shape (o o' : out) : Prop :=
+  match o, o' with
+  | Ok r s1, Ok r' s1' => r = r' /\ pos s1 = pos s1'
+  | Fail s1, Fail s1' => pos s1 = pos s1'
+  | Abort w, Abort w' => w = w'
+  | _, _ => False
+  end.
+
+Lemma term_shape nid k psq s s' : pos s = pos s' ->
+  same_shape (term_parse input orc nid k psq s) (term_parse input orc nid k psq s').
+Proof.
+  intro P. unfold term_parse, nm_raise. rewrite <- P.
+  destruct k; cbn; auto; repeat dm; cbn; auto; now rewrite !pos_reg_fail.
+Qed.
+
+Lemma cterm_shape cm s s' : skipws s = false -> skipws s' = false -> pos s = pos s' ->
+  same_shape (cterm cm s) (cterm cm s').
+Proof.
+  intros SK SK' P. unfold cterm. destruct (get_node g cm) as [nd|]; [|reflexivity].
+  rewrite !msw_nosk, !cjump_nosk by assumption.
+  pose proof (term_shape cm (n_kind nd) false s s' P) as T.
+  destruct (term_parse input orc cm (n_kind nd) false s), (term_parse input orc cm (n_kind nd) false s');
+    cbn in T |- *; auto. destruct T as [-> T]. auto.
+Qed.
+
+Lemma cloop_pos_det cm f : forall f' s s' r s2 r' s2',
+  skipws s = false -> skipws s' = false -> pos s = pos s' ->
+  cloop cm f s = Ok r s2 -> cloop cm f' s' = Ok r' s2' -> pos s2 = pos s2'.
+Proof.
+  induction f as [|f IH]; intros f' s s' r s2 r' s2' SK SK' P E E'; cbn [cloop] in E; [discriminate|].
+  destruct f' as [|f']; cbn [cloop] in E'; [discriminate|].
+  pose proof (cterm_shape cm s s' SK SK' P) as T.
+  pose proof (cterm_good cm s) as G. pose proof (cterm_good cm s') as G'.
+  destruct (cterm cm s) as [r1 s1|s1|w], (cterm cm s') as [r1' s1'|s1'|w']; cbn in T; try contradiction;
+    try discriminate.
+  - destruct T as [_ T]. destruct G as [D _], G' as [D' _].
+    assert (SK1 : skipws s1 = false) by (rewrite (d_skip _ _ D); exact SK).
+    assert (SK1' : skipws s1' = false) by (rewrite (d_skip _ _ D'); exact SK').
+    rewrite msw_nosk in E by assumption. rewrite msw_nosk in E' by assumption.
+    exact (IH f' s1 s1' r s2 r' s2' SK1 SK1' T E E').
+  - injection E as _ <-. injection E' as _ <-. exact T.
+Qed.
+
+Lemma CV_of_run cm f s r s2 :
+  in_cmt s = true -> skipws s = false -> cloop cm f s = Ok r s2 -> CV cm (pos s) (pos s2).
+Proof.
+  intros IC SK E f' s' r' s2' IC' SK' P E'. symmetry.
+  eapply cloop_pos_det; [exact SK | exact SK' | symmetry; exact P | exact E | exact E'].
+Qed.
+
+Lemma reg_fail_cmt p s : in_cmt s = true -> nm s <> None -> reg_fail p s = s.
+Proof. intros IC N. unfold reg_fail. destruct (nm s); [now rewrite IC | contradiction]. Qed.
+
+Lemma term_saturated nid k psq s : in_cmt s = true -> nm s <> None ->
+  match term_parse input orc nid k psq s with
+  | Ok _ s1 | Fail s1 => s1 = set_pos (pos s1) s
+  | Abort _ => True
+  end.
+Proof.
+  intros IC N. unfold term_parse, nm_raise. cbv zeta. rewrite ?(reg_fail_cmt (pos s) s IC N).
+  destruct k; auto.
+  - destruct (length input =? pos s); cbn; now rewrite set_pos_same.
+  - destruct (match oid with Some o => match orc o (pos s) with Some _ => true | None => false end
+                        | None => is_prefix s0 (skipn (pos s) input) end); cbn; auto.
+    now rewrite set_pos_same.
+  - destruct (orc oid (pos s)) as [len|]; [destruct (len =? 0)|]; cbn; auto; now rewrite set_pos_same.
+Qed.
+
+Lemma cloop_saturated cm f : forall s r s2,
+  in_cmt s = true -> skipws s = false -> nm s <> None ->
+  cloop cm f s = Ok r s2 -> s2 = set_pos (pos s2) s.
+Proof.
+  induction f as [|f IH]; intros s r s2 IC SK N E; cbn [cloop] in E; [discriminate|].
+  unfold cterm in E. destruct (get_node g cm) as [nd|]; [|discriminate].
+  rewrite msw_nosk, cjump_nosk in E by assumption.
+  pose proof (term_saturated cm (n_kind nd) false s IC N) as T.
+  destruct (term_parse input orc cm (n_kind nd) false s) as [r1 s1|s1|w]; try discriminate.
+  - assert (SK1 : skipws s1 = false) by (rewrite T; exact SK).
+    rewrite msw_nosk in E by assumption.
+    assert (E2 : s2 = set_pos (pos s2) s1).
+    { eapply IH; [| |  | exact E]; rewrite T; cbn; assumption. }
+    rewrite E2, T. cbn. now rewrite set_pos_set_pos.
+  - injection E as _ <-. exact T.
+Qed.
+
+Lemma term_fail_nm nid k psq s s1 : term_parse input orc nid k psq s = Fail s1 -> nm s1 <> None.
+Proof.
+  unfold term_parse, nm_raise. cbv zeta. intro E.
+  assert (F : s1 = reg_fail (pos s) s).
+  { destruct k; try discriminate E.
+    - destruct (length input =? pos s); [discriminate E | now injection E].
+    - destruct (match oid with Some o => match orc o (pos s) with Some _ => true | None => false end
+                          | None => is_prefix s0 (skipn (pos s) input) end); [discriminate E | now injection E].
+    - destruct (orc oid (pos s)) as [len|]; [destruct (len =? 0); discriminate E | now injection E]. }
+  subst s1. destruct (nm_reg_fail (pos s) s) as [q [Hq _]]. congruence.
+Qed.
+
+Lemma cloop_nm cm f : forall s r s2, cloop cm f s = Ok r s2 -> nm s2 <> None.
+Proof.
+  induction f as [|f IH]; intros s r s2 E; cbn [cloop] in E; [discriminate|].
+  destruct (cterm cm s) as [r1 s1|s1|w] eqn:EC; try discriminate.
+  - eapply IH; exact E.
+  - injection E as _ <-. unfold cterm in EC. destruct (get_node g cm) as [nd|]; [|discriminate].
+    destruct (term_parse input orc cm (n_kind nd) false (cjump (maybe_skip_ws input s))) as [r2 s3|s3|w] eqn:ET;
+      try discriminate. injection EC as <-. eapply term_fail_nm; exact ET.
+Qed.
+
+Lemma cpos_le_refl c : cpos_le c c.
+Proof. intros k v L; exact L. Qed.
+
 Lemma mprec_good f s : sinv s -> good s (mprec f s).
 Proof.
   intros [IC SK]. unfold mprec. pose proof (msw_dom s) as D. pose proof (msw_cpos s) as C.
@@ -258,28 +389,53 @@ Proof.
   assert (S1 : sinv s1) by (split; [exact IC1 | now rewrite SK1, C]).
   destruct (if skipws s1 then lookup (pos s1) (cpos s1) else None) eqn:L.
   - split; [now apply dom_set_pos_r | exact S1].
-  - rewrite IC1. destruct (g_comments g) as [cm|] eqn:E.
-    + destruct SK as [SK|[SK _]]; [|congruence].
-      rewrite SK1, SK in L.
-      pose proof (cloop_good cm f (set_in_cmt true s1)) as G.
-      destruct (cloop cm f (set_in_cmt true s1)) as [r s2|s2|w]; try exact I; [|contradiction].
-      destruct G as [D2 C2]. cbn in C2. split.
-      * eapply dom_trans; [exact D|]. destruct D2. constructor; cbn in *; auto.
-        rewrite C2. now apply cpos_le_upd_absent.
-      * split; [reflexivity | left]. cbn. rewrite (d_skip _ _ D2). cbn. now rewrite SK1.
+  - rewrite IC1. unfold sinv, cpos_ok in *. destruct (g_comments g) as [cm|] eqn:E.
+    + pose proof (cloop_good cm f (set_in_cmt true s1)) as G.
+      destruct (cloop cm f (set_in_cmt true s1)) as [r s2|s2|w] eqn:EL; try exact I; [|contradiction].
+      destruct G as [D2 C2]. cbn in C2.
+      assert (SK2 : skipws s2 = skipws s) by (rewrite (d_skip _ _ D2); cbn; exact SK1).
+      destruct SK as [SK|SK].
+      * (* skipws: the key is absent *)
+        rewrite SK1, SK in L. split.
+        -- eapply dom_trans; [exact D|]. destruct D2. constructor; cbn in *; auto.
+           rewrite C2. now apply cpos_le_upd_absent.
+        -- split; [reflexivity | left]. cbn. now rewrite SK2.
+      * destruct (skipws s) eqn:SKv.
+        { rewrite SK1 in L. split.
+          - eapply dom_trans; [exact D|]. destruct D2. constructor; cbn in *; auto.
+            rewrite C2. now apply cpos_le_upd_absent.
+          - split; [reflexivity | left]. cbn. exact SK2. }
+        (* no skipws: an existing entry already has this value *)
+        assert (CVn : CV cm (pos s1) (pos s2)).
+        { apply (CV_of_run cm f (set_in_cmt true s1) r s2); [reflexivity | cbn; now rewrite SK1 | exact EL]. }
+        assert (Hc : cpos_le (cpos s1) (upd (pos s1) (pos s2) (cpos s2)) /\
+                     (forall k v, lookup k (upd (pos s1) (pos s2) (cpos s2)) = Some v -> CV cm k v)).
+        { rewrite C2. split.
+          - destruct (lookup (pos s1) (cpos s1)) as [v0|] eqn:L0.
+            + rewrite C in L0. pose proof (SK _ _ L0) as CV0.
+              assert (v0 = pos s2).
+              { symmetry. apply (CV0 f (set_in_cmt true s1) r s2); [reflexivity | cbn; now rewrite SK1 | reflexivity | exact EL]. }
+              subst v0. rewrite <- C in L0. rewrite (upd_idem _ _ _ L0). apply cpos_le_refl.
+            + now apply cpos_le_upd_absent.
+          - intros k v Lk. destruct (Nat.eq_dec k (pos s1)) as [->|Hne].
+            + rewrite lookup_upd_same in Lk. injection Lk as <-. exact CVn.
+            + rewrite lookup_upd_other in Lk by assumption. rewrite C in Lk. now apply SK. }
+        destruct Hc as [Hle Hcv]. split.
+        -- eapply dom_trans; [exact D|]. destruct D2. constructor; cbn in *; auto.
+        -- split; [reflexivity | right]. cbn. unfold cpos_ok. rewrite E. exact Hcv.
     + split.
       * eapply dom_trans; [exact D|]. constructor; try reflexivity; [apply nm_le_refl|]. cbn.
-        destruct SK as [SK|[_ SK]].
+        destruct SK as [SK|SK].
         -- rewrite SK1, SK in L. now apply cpos_le_upd_absent.
         -- apply cpos_le_upd. now rewrite C.
-      * split; [exact IC1|]. cbn. destruct SK as [SK|[_ SK]]; [left; now rewrite SK1 | right].
-        split; [exact E|]. apply cpos_id_upd. now rewrite C.
+      * split; [exact IC1|]. cbn. destruct SK as [SK|SK]; [left; now rewrite SK1 | right].
+        unfold cpos_ok. rewrite E. apply cpos_id_upd. now rewrite C.
 Qed.
 
 Lemma mprec_rerun f f' s s' :
   sinv s -> sinv s' -> is_abort (mprec f s) = false ->
   dom (ostate s (mprec f s)) s' -> pos s' = pos s ->
-  mprec f' s' = omap (fun s1 => set_pos (pos s1) s') (mprec f s).
+  rerun_ok (mprec f s) s' (mprec f' s').
 Proof.
   intros [IC SK] [IC' SK'] NA D P.
   assert (D0 : dom s s').
@@ -293,7 +449,7 @@ Proof.
   cbn [skipws pos cpos set_pos in_cmt]. rewrite (d_skip _ _ D0), IC', <- SK1.
   rewrite IC1 in *.
   destruct (skipws s1) eqn:SKv.
-  - destruct (lookup (pos s1) (cpos s1)) as [p'|] eqn:L.
+  - right. destruct (lookup (pos s1) (cpos s1)) as [p'|] eqn:L.
     + rewrite (d_cpos _ _ D0 (pos s1) p') by (rewrite <- C; exact L).
       cbn. now rewrite set_pos_set_pos.
     + destruct (g_comments g) as [cm|] eqn:E.
@@ -307,10 +463,30 @@ Proof.
         assert (L' : lookup (pos s1) (cpos s') = Some (pos s1)).
         { apply (d_cpos _ _ D). cbn. apply lookup_upd_same. }
         rewrite L'. cbn. now rewrite set_pos_set_pos.
-  - destruct SK as [SK|[E SKid]]; [congruence|]. rewrite E in *. cbn in D.
-    assert (L' : lookup (pos s1) (cpos s') = Some (pos s1)).
-    { apply (d_cpos _ _ D). cbn. apply lookup_upd_same. }
-    cbn. rewrite (upd_idem _ _ _ L'). destruct s'; reflexivity.
+  - destruct (g_comments g) as [cm|] eqn:E.
+    + (* no skipws, Comment rule: the loop is run again and reproduces the entry *)
+      destruct (cloop cm f (set_in_cmt true s1)) as [r s2|s2|w] eqn:EL; try discriminate NA;
+        [|exfalso; pose proof (cloop_good cm f (set_in_cmt true s1)) as G; rewrite EL in G; exact G].
+      cbn in D.
+      assert (L' : lookup (pos s1) (cpos s') = Some (pos s2)).
+      { apply (d_cpos _ _ D). cbn. apply lookup_upd_same. }
+      set (t := set_in_cmt true (set_pos (pos s1) s')).
+      destruct (cloop cm f' t) as [r' s2'|s2'|w'] eqn:EL';
+        [| exfalso; pose proof (cloop_good cm f' t) as G; rewrite EL' in G; exact G | now left].
+      right. cbn [omap].
+      assert (SKt : skipws t = false) by (cbn; rewrite (d_skip _ _ D0); now rewrite <- SK1).
+      assert (Nt : nm t <> None).
+      { cbn. pose proof (cloop_nm cm f _ _ _ EL) as N2. pose proof (d_nm _ _ D) as Hn. cbn in Hn.
+        destruct (nm s2); [|contradiction]. destruct (nm s'); [discriminate | contradiction]. }
+      pose proof (cloop_saturated cm f' t r' s2' eq_refl SKt Nt EL') as Sat.
+      assert (Pv : pos s2' = pos s2).
+      { eapply (cloop_pos_det cm f' f t (set_in_cmt true s1)); [exact SKt | cbn; exact SKv | reflexivity | exact EL' | exact EL]. }
+      rewrite Sat, Pv. cbn. rewrite (upd_idem _ _ _ L'). f_equal.
+      destruct s'; cbn in *; subst; reflexivity.
+    + right. cbn in D.
+      assert (L' : lookup (pos s1) (cpos s') = Some (pos s1)).
+      { apply (d_cpos _ _ D). cbn. apply lookup_upd_same. }
+      cbn. rewrite (upd_idem _ _ _ L'). destruct s'; reflexivity.
 Qed.
 
 Lemma cterm_cache c cm s : cterm cm (set_cache c s) = omap (set_cache c) (cterm cm s).
@@ -588,8 +764,6 @@ Qed.
 
 
 (* ================================================================ A: re-running is idempotent *)
-Definition rerun_ok (o : out) (s' : st) (o' : out) : Prop :=
-  is_abort o' = true \/ o' = omap (fun s1 => set_pos (pos s1) s') o.
 
 Definition rec_rerun (rec rec' : parser) : Prop :=
   forall c psq s s', sinv s -> sinv s' ->
@@ -989,9 +1163,9 @@ Proof.
       destruct (term_parse input orc nid (n_kind nd) psq s0) as [r s1|s1|w] eqn:E;
         try discriminate NA; destruct G as [D2 C2]; cbn in D;
         (assert (Dm : dom s0 s') by (eapply dom_trans; eassumption));
-        rewrite (R0 eq_refl Dm P); cbn [omap];
+        (destruct (R0 eq_refl Dm P) as [A0|Eq0]; [ab A0|]); rewrite Eq0; cbn [omap];
         rewrite (R eq_refl (dom_set_pos_r _ _ _ D) eq_refl); cbn; right; cbn; now rewrite set_pos_set_pos.
-    + cbn in D. rewrite (R0 eq_refl D P). now right.
+    + cbn in D. destruct (R0 eq_refl D P) as [A0|Eq0]; [ab A0|]. rewrite Eq0. now right.
   - cbn in *.
     rewrite !(body_eq _ _ _ _ _ Hn) in *. rewrite P.
     pose proof (body0_rerun (parse g input orc false f) (parse g input orc false f') (parse_good f) (IH f') f f' nd) as R.
@@ -1351,14 +1525,12 @@ Qed.
 Definition not_aborted (o : outcome) : Prop := match o with Aborted _ => False | _ => True end.
 
 Theorem memo_safe c fuel :
-  c_skipws c = true \/ g_comments g = None ->
   not_aborted (run g c orc false fuel input) ->
   run g c orc true fuel input = run g c orc false fuel input.
 Proof.
-  unfold run. intros SK NA.
+  unfold run. intros NA.
   assert (C0 : sinv (init_st c)).
-  { split; [reflexivity|]. destruct SK as [SK|SK]; [left; exact SK | right].
-    split; [exact SK|]. intros k v L; discriminate L. }
+  { split; [reflexivity|]. right. unfold cpos_ok. destruct (g_comments g); intros k v L; discriminate L. }
   assert (I0 : INV [] (init_st c)) by (intros nid p cr np L; discriminate L).
   pose proof (parse_sim fuel (g_top g) false [] (init_st c) C0 I0) as R.
   change (set_cache [] (init_st c)) with (init_st c) in R.
@@ -1372,12 +1544,11 @@ End Memo.
 Theorem memo_safe_any_fuel :
   forall g cfg orc f f' input,
     ctx_constant g = true ->
-    c_skipws cfg = true \/ g_comments g = None ->
     not_aborted (run g cfg orc false f input) -> f <= f' ->
     run g cfg orc true f' input = run g cfg orc false f input.
 Proof.
-  intros g cfg orc f f' input Hc Hs Hn L.
-  pose proof (memo_safe g input orc Hc cfg f Hs Hn) as E.
+  intros g cfg orc f f' input Hc Hn L.
+  pose proof (memo_safe g input orc Hc cfg f Hn) as E.
   rewrite <- E. apply run_fuel_mono; [exact L|]. rewrite E.
   destruct (run g cfg orc false f input); try discriminate. contradiction.
 Qed.
